@@ -1,30 +1,27 @@
 (* C08: the FULL purity statements are false of the current source.  Concrete witnesses over the
-   generated tables; each is replayed on the real interpreter by the harness (known findings
-   include-special-form, stdsetup-sys, stdsetup-import).  This file is expected to STOP compiling
-   when the repository is repaired; the check builds it only while those findings are listed. *)
+   generated tables (proofs in Proofs/SandboxRefuted.v); each is replayed on the real interpreter by
+   the harness (known findings include-special-form, stdsetup-sys, stdsetup-import).  This file is
+   expected to STOP compiling when the repository is repaired; the check builds it only while those
+   findings are listed in KNOWN_FINDINGS.txt. *)
 From Coq Require Import String List Bool.
-From ZV Require Import Generated.SandboxTables Model.Sandbox.
+From ZV Require Import Generated.SandboxTables Model.Sandbox Proofs.SandboxRefuted.
 Import ListNotations.
 Open Scope string_scope.
 
 Theorem special_forms_pure_refuted : exists n f, In (n, f) special_forms /\ effect_of f <> [].
-Proof. exists "include", "special:include". split; [vm_compute; tauto | vm_compute; discriminate]. Qed.
+Proof. exact SandboxRefuted.special_forms_pure_refuted. Qed.
 Print Assumptions special_forms_pure_refuted.
 
 Theorem sandbox_tables_pure_refuted_sys : exists n k f,
   In (n, k, f) (bindings Std) /\ k <> KValue /\ effect_of f = [Eprocess].
-Proof.
-  exists "sys", KBuilder, "SystemBuilder". split; [vm_compute; tauto|]. split; [discriminate | vm_compute; reflexivity].
-Qed.
+Proof. exact SandboxRefuted.sandbox_tables_pure_refuted_sys. Qed.
 Print Assumptions sandbox_tables_pure_refuted_sys.
 
 Theorem sandbox_tables_pure_refuted_import : exists n k f,
   In (n, k, f) (bindings Std) /\ k <> KValue /\ effect_of f = [Efileread].
-Proof.
-  exists "import", KBuilder, "ImportPackageBuilder". split; [vm_compute; tauto|]. split; [discriminate | vm_compute; reflexivity].
-Qed.
+Proof. exact SandboxRefuted.sandbox_tables_pure_refuted_import. Qed.
 Print Assumptions sandbox_tables_pure_refuted_import.
 
 Theorem sandbox_no_effect_refuted : exists c p, sandboxed c = true /\ effects_of (run_abs c p) <> [].
-Proof. exists Bare, (PSpecial "include" [PConst]). split; [reflexivity | vm_compute; discriminate]. Qed.
+Proof. exact SandboxRefuted.sandbox_no_effect_refuted. Qed.
 Print Assumptions sandbox_no_effect_refuted.
